@@ -115,7 +115,15 @@ func (iq *IndexQuery) FetchCollection(db *badger.DB) ([]string, error) {
 		opts.Reverse = iq.Reverse
 		it := txn.NewIterator(opts)
 		defer it.Close()
-		for it.Seek(queryPrefix); it.ValidForPrefix(queryPrefix); it.Next() {
+		// A reverse iterator seeks to the last key less than or equal to the
+		// given key. Seek past the keys having the query prefix.
+		seekKey := queryPrefix
+		if iq.Reverse {
+			seekKey = make([]byte, qplen+1)
+			copy(seekKey, queryPrefix)
+			seekKey[qplen] = 0xFF
+		}
+		for it.Seek(seekKey); it.ValidForPrefix(queryPrefix); it.Next() {
 			k := it.Item().Key()
 			idx := bytes.LastIndexByte(k, idSeparator)
 			if idx < 0 {
